@@ -106,6 +106,62 @@ def narrow_unsigned(v):
     return isinstance(v, tuple) and v[0] == 'cast' and v[2] in ('usize', 'u64') and True
 
 
+_BITS = {'u8': 8, 'u16': 16, 'u32': 32, 'u64': 64, 'usize': 64, 'i8': 8, 'i16': 16, 'i32': 32, 'i64': 64, 'isize': 64, 'bool': 1, 'char': 21}
+
+
+def _ty_range(ty):
+    n = _BITS.get(ty)
+    if n is None:
+        return None
+    if ty.startswith('i'):
+        return (-(1 << (n - 1)), (1 << (n - 1)) - 1)
+    return (0, (1 << n) - 1)
+
+
+def width_interval(fn, v, depth=0):
+    """(lo, hi) of a value made of integer conversions, constants, shifts by constants, sums, masks: what the WIDTHS of the
+    types it was converted from allow (`num as isize + ((ip as isize) << 16)` with num: u16, ip: u32 is at most 2^48)"""
+    if depth > 10 or not isinstance(v, tuple) or not v:
+        return None
+    if v[0] == 'int':
+        return (v[1], v[1])
+    if v[0] == 'cast' and len(v) > 3 and isinstance(v[2], str) and isinstance(v[3], str):
+        src, dst = _ty_range(v[3]), _ty_range(v[2])
+        inner = width_interval(fn, v[1], depth + 1)
+        if src is None or dst is None:
+            return None
+        r = src if inner is None else (max(src[0], inner[0]), min(src[1], inner[1]))
+        if dst[0] <= r[0] and r[1] <= dst[1]:
+            return r            # the conversion keeps the value
+        return dst
+    if v[0] == 'param':
+        return _ty_range(fn.local_ty(v[1]))
+    if v[0] == 'checked':
+        v = ('binop', v[1], v[2], v[3])
+    if v[0] == 'binop' and len(v) > 3:
+        a, b = width_interval(fn, v[2], depth + 1), width_interval(fn, v[3], depth + 1)
+        op = v[1].replace('WithOverflow', '')
+        if op == 'BitAnd':
+            for x in (a, b):
+                if x is not None and x[0] == x[1] and x[0] >= 0:
+                    return (0, x[0])
+        if a is None or b is None:
+            return None
+        if op == 'Add':
+            return (a[0] + b[0], a[1] + b[1])
+        if op == 'Sub':
+            return (a[0] - b[1], a[1] - b[0])
+        if op == 'Mul' and a[0] >= 0 and b[0] >= 0:
+            return (a[0] * b[0], a[1] * b[1])
+        if op == 'Shl' and b[0] == b[1] and 0 <= b[0] < 64 and a[0] >= 0:
+            return (a[0] << b[0], a[1] << b[0])
+        if op == 'Shr' and b[0] == b[1] and 0 <= b[0] < 64 and a[0] >= 0:
+            return (a[0] >> b[0], a[1] >> b[0])
+        if op in ('BitOr', 'BitXor') and a[0] >= 0 and b[0] >= 0:
+            return (0, (1 << max(a[1].bit_length(), b[1].bit_length())) - 1)
+    return None
+
+
 def discharge(F, site):
     fn = site['f']
     t = site['term']
@@ -124,6 +180,12 @@ def discharge(F, site):
             if strip(a)[0] == 'int' and strip(bb)[0] == 'int':
                 return 'D0', 'constant operands'
             facts = facts_at(fn, b)
+            if op in ('Add', 'Sub', 'Mul') and _ty_range(ty) is not None:
+                # what the operand types allow stays inside the result type
+                w = width_interval(fn, ('binop', op, a, bb))
+                tr = _ty_range(ty)
+                if w is not None and tr[0] <= w[0] and w[1] <= tr[1]:
+                    return 'D2', 'the operands are conversions of narrower integers: the result is between %d and %d, inside %s' % (w[0], w[1], ty)
             if op == 'Add' and ty in ('usize', 'u64'):
                 if small_or_len(bb) or small_or_len(a):
                     return 'D2', 'usize counter plus a length/small constant cannot overflow (bounded by memory size)'
